@@ -11,7 +11,7 @@ pub fn run(args: kvcore::Args) {
     let rt = srv::rt();
     rt.block_on(async {
         let mut rng = Rng::new(1);
-        let mut w = World::new(&WorldCfg { replicas: 1, level: 14, unique_names: false, file_backed: None }, &mut rng).await;
+        let mut w = World::new(&WorldCfg { replicas: 1, level: 14, unique_names: false, skew: false, file_backed: None }, &mut rng).await;
         let g0 = Obj(Kind::Group, 0);
         let d0 = Obj(Kind::DynGroup, 0);
         let g0 = d0;
